@@ -227,22 +227,33 @@ def _invoke_blocks(b):
     return out
 
 
+def _invocation_sites(P, E, b):
+    """[(bb in b, line)] where the wrapped callable runs: a dyn Fn call in b itself (helpers are
+    already inlined) or inside a closure b hands to an inline std combinator (Option::map ..)."""
+    out = [(c.bb, c.line) for c in _invoke_blocks(b)]
+    for c in b.calls:
+        for t in E.inline_targets(c):
+            if t.kind == "closure" and (_invoke_blocks(t) or any(_invoke_blocks(x) for x in P.descendants(t))):
+                out.append((c.bb, c.line))
+    return out
+
+
 def f_no_guard_call(P, E):
     r = RuleResult("F-no-guard-call", "FunctionWrapper invokes the callable with no guard of "
                                       "`inner` held")
-    ms = P.methods_of(FW)
+    ms = [b for b in P.methods_of(FW) if b.id not in P.absorbed]
     if not ms:
         r.error("anchor missing: impl FunctionWrapper")
     n = 0
     for b in ms:
         acqs, held, _ = _inner_guard_acqs(b)
-        for c in _invoke_blocks(b):
+        for (bb, line) in _invocation_sites(P, E, b):
             n += 1
-            r.instance((b.nid, "invoke"), True, "invocation with guards %s" % sorted(held.get(c.bb, ())))
-            if held.get(c.bb, set()) & set(acqs):
+            r.instance((b.nid, "invoke"), True, "invocation with guards %s" % sorted(held.get(bb, ())))
+            if held.get(bb, set()) & set(acqs):
                 r.violate((b.nid, "callable invoked under inner guard"),
                           "the wrapped callable runs while the wrapper's own lock is held: any "
-                          "re-entrant use of the same wrapper self-deadlocks", body=b, line=c.line)
+                          "re-entrant use of the same wrapper self-deadlocks", body=b, line=line)
     if n < 3:
         r.error("expected >= 3 callable invocations in impl FunctionWrapper, found %d" % n)
     return r
@@ -483,19 +494,28 @@ def s_finalize_shape(P, E):
     def on(c, field):
         return c.args and any(rk == "param" and rd == 1 and path[:1] == (field,) for (rk, rd, path) in b.operand_prov(c.args[0]))
 
-    iters = [c for c in b.calls if c.path in ("std::collections::HashMap::iter", "std::collections::HashMap::values") and on(c, "unscribers")]
-    clears = [c for c in b.calls if c.path == "std::collections::HashMap::clear" and on(c, "unscribers")]
+    iters = [c for c in b.calls if c.path in ("std::collections::HashMap::iter", "std::collections::HashMap::values",
+                                              "std::collections::HashMap::drain", "std::iter::IntoIterator::into_iter") and on(c, "unscribers")]
+    clears = [c for c in b.calls if c.path in ("std::collections::HashMap::clear", "std::collections::HashMap::drain") and on(c, "unscribers")]
     runs = []
     for c in b.calls:
-        if c.path == "std::iter::Iterator::for_each":
+        # an entry of the map is invoked: directly inside a loop of finalize, or by a closure
+        # handed to an iteration call
+        if atom(c) == "fw_call" and b.in_cycle(c.bb) and any("unscribers" in path and "[]" in path
+                                                            for (_, _, path) in b.operand_prov(c.args[0])):
+            runs.append(c)
+        if c.path in ("std::iter::Iterator::for_each", "std::iter::Iterator::map", "std::iter::Iterator::all"):
             for t in E.inline_targets(c):
-                if any(atom(x) == "fw_call" for x in t.calls):
+                if any(atom(x) == "fw_call" for x in t.calls) and c.args and on(c, "unscribers"):
                     runs.append(c)
-    r.instance((b.nid, "run entries"), True, "iter %s for_each %s clear %s" % ([c.bb for c in iters], [c.bb for c in runs], [c.bb for c in clears]))
-    if not iters or not runs:
+    r.instance((b.nid, "run entries"), True, "iter %s run %s clear %s" % ([c.bb for c in iters], [c.bb for c in runs], [c.bb for c in clears]))
+    if not runs:
         r.violate((b.nid, "entries not run"), "finalize does not invoke every registered upstream unsubscribe action", body=b)
-    elif Effects.path_avoiding(b, b.returns, [c.bb for c in runs]) is not None:
-        r.violate((b.nid, "entries not run on some path"), "a path through finalize skips the upstream unsubscribe actions", body=b)
+    else:
+        # the iteration that runs the entries is entered on every path: its iterator is created on every path
+        heads = [c.bb for c in iters] or [c.bb for c in runs]
+        if Effects.path_avoiding(b, b.returns, heads) is not None:
+            r.violate((b.nid, "entries not run on some path"), "a path through finalize skips the upstream unsubscribe actions", body=b)
     if not clears or Effects.path_avoiding(b, b.returns, [c.bb for c in clears]) is not None:
         r.violate((b.nid, "unscribers not cleared"), "finalize does not clear the upstream map on every path "
                   "(handlers -> sctl -> unscribers -> observer -> handlers cycle survives)", body=b)
